@@ -48,8 +48,11 @@ def strategy(tier):
     doc = st.fixed_dictionaries({"kind": st.just("document"), "doc": documents()})
     bad = st.fixed_dictionaries({"kind": st.just("invalid"), "which": st.integers(0, 9), "prog": gen_prog.programs(max_stmts=6)})
     from vf.core import weighted
+    from vf.checks import c03
 
-    return weighted((3, prog), (2, doc), (1, bad))
+    # the compile command also takes SsbScript sources (marker line): ops numbered from 0, nothing dropped
+    ssbs = st.fixed_dictionaries({"kind": st.just("ssbs_source"), "src": c03.ssbs_programs()})
+    return weighted((6, prog), (4, doc), (2, bad), (1, ssbs))
 
 
 @st.composite
@@ -239,7 +242,7 @@ def evaluate_program(prog, stt, runner, workdir):
         return fails
     c = gen_ssb.case_from_compiled(api)
     if c is not None and (gen_ssb.foreign_targets_not_locally_reachable(c) or gen_ssb.call_target_only_reachable_by_call(c)
-                          or gen_ssb.degenerate_branch_in_loop(c) or gen_ssb.call_on_cycle(c) or gen_ssb.case_jumps_backward_or_into_chain(c) or gen_ssb.inexpressible_case_ops(c)
+                          or gen_ssb.degenerate_branch_in_loop(c) or gen_ssb.call_on_cycle(c) or gen_ssb.case_jumps_backward_or_into_chain(c) or gen_ssb.case_op_is_jump_target(c) or gen_ssb.inexpressible_case_ops(c)
                           or not gen_ssb.well_formed(c)[0]):
         stt.excluded_known += 1
         return fails
@@ -354,6 +357,55 @@ def evaluate_invalid(which, prog, stt, runner, workdir):
     return fails
 
 
+def evaluate_ssbs_source(src_case, stt, runner, workdir):
+    """SsbScript source behind the marker line through the compile command: structure and 1-based jump positions"""
+    from vf.checks import c03
+
+    fails = []
+    text = decomp.MARKER + "\n" + c03.ssbs_text(src_case)
+    api, exc = call_guard(lambda: compile_text(text, os.path.join(workdir, "src.exps")))
+    if exc is not None:
+        stt.count("ssbs_source_rejected_by_compiler")
+        return fails
+    src = os.path.join(workdir, "src.exps")
+    with open(src, "w", encoding="utf-8") as fh:
+        fh.write(text)
+    settings = os.path.join(workdir, "settings.json")
+    with open(settings, "w") as fh:
+        json.dump(settings_dict(), fh)
+    status, out, err = runner("explorerscript.cli.compile", [src, "--settings", settings])
+    if status != 0:
+        fails.append(Failure("compile_cli_failed:ssbs_source", f"exit {status}, stderr {err[-300:]!r}\n{text}"))
+        return fails
+    try:
+        doc = json.loads(out)
+    except ValueError as e:
+        fails.append(Failure("compile_cli_not_json", f"{e}\n{out[:300]}"))
+        return fails
+    bad = check_structure(doc)
+    if bad:
+        fails.append(Failure("compile_cli_structure:ssbs_source", f"{bad}\n{text}"))
+        return fails
+    position, k = {}, 0
+    for r in api.routine_ops:
+        for op in r:
+            k += 1
+            position[op.offset] = k
+    flat_api = [op for r in api.routine_ops for op in r]
+    flat_doc = [op for r in doc["routines"] for op in r["ops"]]
+    if len(flat_api) != len(flat_doc):
+        fails.append(Failure("compile_cli_op_count", f"{len(flat_doc)} ops printed, API has {len(flat_api)}"))
+        return fails
+    for a, d in zip(flat_api, flat_doc):
+        if a.op_code.name in T.JUMP_OPS and a.params and isinstance(a.params[-1], int) and a.params[-1] in position:
+            stt.mark_nontrivial(text)
+            got = d["params"][-1] if d["params"] else None
+            if got != position[a.params[-1]]:
+                fails.append(Failure("jump_param_is_not_position:ssbs_source", f"{a.op_code.name}: printed jump parameter {got!r}, the target is op number {position[a.params[-1]]} (internal offset {a.params[-1]})\n{text}"))
+                break
+    return fails
+
+
 def evaluate(case, stt, runner=None):
     runner = runner or run_cli_inprocess
     workdir = tempfile.mkdtemp(prefix="vf-c15-")
@@ -363,6 +415,8 @@ def evaluate(case, stt, runner=None):
             return evaluate_program(case["prog"], stt, runner, workdir)
         if case["kind"] == "document":
             return evaluate_document(case["doc"], stt, runner, workdir)
+        if case["kind"] == "ssbs_source":
+            return evaluate_ssbs_source(case["src"], stt, runner, workdir)
         return evaluate_invalid(case["which"], case["prog"], stt, runner, workdir)
     finally:
         shutil.rmtree(workdir, ignore_errors=True)
